@@ -278,3 +278,14 @@ def async_inner(v):
             return b["expr"]
         return b
     return v
+
+
+def async_full(v):
+    """For `async fn`: the whole coroutine body including the `let param = param;` prologue
+    (so that inner bindings resolve to the outer parameters); otherwise v itself."""
+    x = v
+    if x.get("k") == "Block" and not x["stmts"] and x.get("expr") and x["expr"].get("k") == "Closure":
+        x = x["expr"]
+    if x.get("k") == "Closure" and "Coroutine" in x.get("ckind", ""):
+        return x["body"]
+    return v
